@@ -414,7 +414,7 @@ func (c *Compiler) compileProgram(node *ast.Program) error {
 				return err
 			}
 			if i < count-1 {
-				if stmt.IsExpression() {
+				if stmt.IsExpression() || isNamedFunc(stmt) {
 					c.emit(op.PopTop)
 				}
 			}
@@ -422,6 +422,9 @@ func (c *Compiler) compileProgram(node *ast.Program) error {
 		// Guarantee that the program evaluates to a value
 		lastStatement := statements[count-1]
 		if !lastStatement.IsExpression() {
+			if isNamedFunc(lastStatement) {
+				c.emit(op.PopTop)
+			}
 			c.emit(op.Nil)
 		}
 	}
@@ -445,7 +448,7 @@ func (c *Compiler) compileBlock(node *ast.Block) error {
 				return err
 			}
 			if i < count-1 {
-				if stmt.IsExpression() {
+				if stmt.IsExpression() || isNamedFunc(stmt) {
 					c.emit(op.PopTop)
 				}
 			}
@@ -453,6 +456,9 @@ func (c *Compiler) compileBlock(node *ast.Block) error {
 		// Guarantee that the block evaluates to a value
 		lastStatement := statements[count-1]
 		if !lastStatement.IsExpression() {
+			if isNamedFunc(lastStatement) {
+				c.emit(op.PopTop)
+			}
 			c.emit(op.Nil)
 		}
 	}
@@ -472,12 +478,19 @@ func (c *Compiler) compileFunctionBlock(node *ast.Block) error {
 			return err
 		}
 		if i < count-1 {
-			if stmt.IsExpression() {
+			if stmt.IsExpression() || isNamedFunc(stmt) {
 				c.emit(op.PopTop)
 			}
 		}
 	}
 	return nil
+}
+
+// isNamedFunc reports whether the node is a named function, which is a
+// statement that nevertheless leaves its function on the stack.
+func isNamedFunc(node ast.Node) bool {
+	fn, ok := node.(*ast.Func)
+	return ok && fn.Name() != nil
 }
 
 func (c *Compiler) compileVar(node *ast.Var) error {
